@@ -2,6 +2,7 @@ package main
 
 import (
 	"go/ast"
+	"go/constant"
 	"go/token"
 	"go/types"
 	"sort"
@@ -701,4 +702,12 @@ func lhsVars(info *types.Info, n ast.Node, pred func(rhs ast.Expr) bool) []*type
 		return true
 	})
 	return out
+}
+
+// constantInt64 returns the value of an integer constant.
+func constantInt64(v constant.Value) (int64, bool) {
+	if v == nil || v.Kind() != constant.Int {
+		return 0, false
+	}
+	return constant.Int64Val(v)
 }
